@@ -41,25 +41,35 @@ class CaseTimeout(Exception):
 
 
 class case_deadline:
-    """with case_deadline(20): ...   raises CaseTimeout inside the block after N wall seconds.
-    Only for cases whose normal cost is milliseconds: 4 orders of magnitude of slack."""
+    """with case_deadline(20): ...   raises CaseTimeout inside the block after N seconds of this process's own CPU
+    time (ITIMER_PROF), NOT wall time: on a loaded machine a starved process makes no progress for a long wall time
+    without looping (a thorough run shared with other jobs produced hundreds of 30-s wall-clock 'time-outs' on cases
+    that cost milliseconds and that no replay reproduces).  Only for cases whose normal cost is milliseconds."""
 
     def __init__(self, seconds):
         self.seconds = seconds
 
-    def _fire(self, *a):
-        raise CaseTimeout()
+    def _fire(self, signum=None, frame=None):
+        # where was the code when the budget ran out?  (innermost frames; part of the witness)
+        import traceback
+        where = []
+        try:
+            for fs in traceback.extract_stack(frame)[-8:]:
+                where.append("%s:%d:%s" % (fs.filename.rsplit("/", 1)[-1], fs.lineno, fs.name))
+        except Exception:
+            pass
+        raise CaseTimeout(" <- ".join(reversed(where)))
 
     def __enter__(self):
         import signal
-        self._old = signal.signal(signal.SIGALRM, self._fire)
-        signal.setitimer(signal.ITIMER_REAL, self.seconds)
+        self._old = signal.signal(signal.SIGPROF, self._fire)
+        signal.setitimer(signal.ITIMER_PROF, self.seconds)
         return self
 
     def __exit__(self, *a):
         import signal
-        signal.setitimer(signal.ITIMER_REAL, 0)
-        signal.signal(signal.SIGALRM, self._old)
+        signal.setitimer(signal.ITIMER_PROF, 0)
+        signal.signal(signal.SIGPROF, self._old)
         return False
 
 
